@@ -1,5 +1,89 @@
-//! S8 — live-heap accounting (filled in below).
-pub fn cmd_heap(_args: &[String]) {
-    eprintln!("heap: not built yet");
-    std::process::exit(2);
+//! S8 — live-heap accounting with a counting global allocator: the live byte count before a
+//! generator is constructed and after it has been dropped must be equal (after one warm-up
+//! generation, which initialises process-wide caches such as the module table).
+
+use crate::{sample_case, Case, Mode, Rng};
+use std::alloc::{GlobalAlloc, Layout, System};
+use std::sync::atomic::{AtomicIsize, AtomicUsize, Ordering};
+
+pub struct Counting;
+
+static LIVE: AtomicIsize = AtomicIsize::new(0);
+static ALLOCS: AtomicUsize = AtomicUsize::new(0);
+
+unsafe impl GlobalAlloc for Counting {
+    unsafe fn alloc(&self, l: Layout) -> *mut u8 {
+        let p = System.alloc(l);
+        if !p.is_null() {
+            LIVE.fetch_add(l.size() as isize, Ordering::Relaxed);
+            ALLOCS.fetch_add(1, Ordering::Relaxed);
+        }
+        p
+    }
+    unsafe fn dealloc(&self, p: *mut u8, l: Layout) {
+        System.dealloc(p, l);
+        LIVE.fetch_sub(l.size() as isize, Ordering::Relaxed);
+    }
+    unsafe fn realloc(&self, p: *mut u8, l: Layout, new_size: usize) -> *mut u8 {
+        let q = System.realloc(p, l, new_size);
+        if !q.is_null() {
+            LIVE.fetch_add(new_size as isize - l.size() as isize, Ordering::Relaxed);
+        }
+        q
+    }
+}
+
+pub fn live() -> isize {
+    LIVE.load(Ordering::Relaxed)
+}
+
+/// live-byte delta of: construct, (warm-ups), generate, [reset, generate again], drop
+pub fn measure(c: &Case, twice: bool) -> (isize, bool) {
+    let before = live();
+    let ok;
+    {
+        let mut g = c.generator();
+        c.warm_up(&mut g);
+        ok = c.run_on(&mut g).is_ok();
+        if twice {
+            g.reset();
+            let _ = c.run_on(&mut g);
+        }
+        drop(g);
+    }
+    (live() - before, ok)
+}
+
+pub fn cmd_heap(args: &[String]) {
+    if let Some(i) = args.iter().position(|a| a == "--case") {
+        let line = args[i + 1..].join(" ");
+        let c = Case::parse(&line).expect("case");
+        let _ = measure(&c, false); // warm-up of process-wide caches
+        let (d, ok) = measure(&c, args.iter().any(|a| a == "twice=1"));
+        println!("heap {} delta={} gen={}", c.line(), d, if ok { "ok" } else { "failed" });
+        return;
+    }
+    let n: u64 = crate::arg_val(args, "--cases", "500").parse().unwrap();
+    let seed: u64 = crate::arg_val(args, "--seed", "1").parse().unwrap();
+    let profile = crate::arg_val(args, "--profile", "default");
+    let mut rng = Rng(seed ^ 0x68656170);
+    // warm-up: one generation per protocol initialises lazily built tables
+    for p in 0..6 {
+        let c = Case { id: 0, proto: p, unsafe_m: false, ext: true, buf: true, min: 60, max: 300, mask: 0x7f,
+            rate_bits: 0.5f64.to_bits(), mode: Mode::Rand(p as u64), warm: 0, mu: false, muts: None };
+        let _ = measure(&c, false);
+    }
+    // a long soak at the end reports the total drift over all cases as well
+    let start = live();
+    for id in 0..n {
+        let mut c = sample_case(&mut rng, id, profile, "mix");
+        if c.max > 600 {
+            c.max = 600;
+            c.min = c.min.min(400);
+        }
+        let twice = rng.coin();
+        let (d, ok) = measure(&c, twice);
+        println!("heap {} twice={} delta={} gen={}", c.line(), twice as u8, d, if ok { "ok" } else { "failed" });
+    }
+    println!("heap-total cases={} drift={}", n, live() - start);
 }
